@@ -1,66 +1,110 @@
 //go:build verif
 
-// RUN stage of C19, site "keepstore": remoteProxy.Get -> remoteClient salts the caller's token
-// before fetching a +R block from the remote cluster's keep service (a recording HTTP server).
+// RUN stage of C19, site "keepstore": remoteProxy.Get -> remoteClient builds (first fetch) or reuses
+// (later fetches) the keep client for the remote cluster and salts the caller's token before fetching
+// a +R block.  The remote cluster is two recording servers: its API server (TLS; discovery document
+// and keep_services/accessible, which remoteClient's service discovery asks for on the first fetch)
+// and its keep service (the block fetch).  EVERY request that reaches either of them, on the first
+// and on the second fetch, is searched for the caller's secret.  The keep client's list of services
+// is cached per API host for the whole process, so every scenario gets an API server of its own.
 
 package main
 
 import (
 	"context"
 	"fmt"
+	"io"
 	"math/rand"
 	"net/http"
 	"net/http/httptest"
 	"net/url"
 	"os"
+	"strings"
+	"sync"
 	"testing"
 
 	"git.arvados.org/arvados.git/sdk/go/arvados"
-	"git.arvados.org/arvados.git/sdk/go/arvadosclient"
-	"git.arvados.org/arvados.git/sdk/go/keepclient"
 )
+
+type vC19KeepRemote struct {
+	mu   sync.Mutex
+	reqs []vC19Captured
+}
+
+func (r *vC19KeepRemote) record(req *http.Request) {
+	b, _ := io.ReadAll(req.Body)
+	r.mu.Lock()
+	r.reqs = append(r.reqs, vC19Captured{uri: req.RequestURI, header: req.Header.Clone(), body: string(b)})
+	r.mu.Unlock()
+}
+
+func (r *vC19KeepRemote) take() []vC19Captured {
+	r.mu.Lock()
+	defer r.mu.Unlock()
+	out := r.reqs
+	r.reqs = nil
+	return out
+}
 
 func TestVerifC19Keepstore(t *testing.T) {
 	var scns []vC19Scenario
 	vReadNDJSON(os.Getenv("VERIF_SCENARIOS"), func() interface{} { scns = append(scns, vC19Scenario{}); return &scns[len(scns)-1] })
 	out := vNewTraceWriter(os.Getenv("VERIF_TRACES"))
 	defer out.Close()
-	rec := &vC19Recorder{body: "foo"}
-	srv := httptest.NewServer(rec)
-	defer srv.Close()
-	u, _ := url.Parse(srv.URL)
-	cluster := &arvados.Cluster{ClusterID: vC19Home, RemoteClusters: map[string]arvados.RemoteCluster{
-		vC19Remote: {Host: u.Host, Scheme: "http", Proxy: true, Insecure: true},
-	}}
-	// the cached client for the remote cluster (what remoteClient would build through service
-	// discovery), pointing at the recording server
-	kc := &keepclient.KeepClient{
-		Arvados:       &arvadosclient.ArvadosClient{ApiServer: u.Host, ApiToken: "xxx", ApiInsecure: true},
-		Want_replicas: 1,
-	}
-	kc.SetServiceRoots(map[string]string{vC19Remote + "-bi6l4-000000000000000": srv.URL}, nil, nil)
+	remote := &vC19KeepRemote{}
+	keepSrv := httptest.NewServer(http.HandlerFunc(func(w http.ResponseWriter, req *http.Request) {
+		remote.record(req)
+		w.Write([]byte("foo"))
+	}))
+	defer keepSrv.Close()
+	ku, _ := url.Parse(keepSrv.URL)
 	for _, scn := range scns {
 		rng := rand.New(rand.NewSource(int64(scn.ID)*15485863 + scn.RSeed))
 		tok := vC19Token(rng, scn.Toks[0].C)
-		rp := &remoteProxy{clients: map[string]*keepclient.KeepClient{vC19Remote: kc}}
+		// the remote cluster's API server
+		apiSrv := httptest.NewTLSServer(http.HandlerFunc(func(w http.ResponseWriter, req *http.Request) {
+			remote.record(req)
+			w.Header().Set("Content-Type", "application/json")
+			switch {
+			case strings.HasPrefix(req.URL.Path, "/discovery/"):
+				fmt.Fprint(w, `{"defaultCollectionReplication":2,"blobSignatureTtl":1209600,"maxRequestSize":134217728}`)
+			case strings.HasSuffix(req.URL.Path, "/keep_services/accessible"):
+				fmt.Fprintf(w, `{"kind":"arvados#keepServiceList","items":[{"uuid":"%s-bi6l4-000000000000000","service_host":%q,"service_port":%s,"service_ssl_flag":false,"service_type":"proxy","read_only":false}],"items_available":1}`,
+					vC19Remote, ku.Hostname(), ku.Port())
+			default:
+				w.WriteHeader(http.StatusNotFound)
+				fmt.Fprint(w, `{"errors":["not found"]}`)
+			}
+		}))
+		au, _ := url.Parse(apiSrv.URL)
+		cluster := &arvados.Cluster{ClusterID: vC19Home, RemoteClusters: map[string]arvados.RemoteCluster{
+			vC19Remote: {Host: au.Host, Scheme: "https", Proxy: true, Insecure: true},
+		}}
+		rp := &remoteProxy{}
 		scheme := "OAuth2 "
 		if scn.Toks[0].P == "bearer" {
 			scheme = "Bearer "
 		}
-		req := httptest.NewRequest("GET", "http://keep0.example/acbd18db4cc2f85cedef654fccc4a4d8+3+R"+vC19Remote+"-"+vC19Rand(rng, 40, "0123456789abcdef")+"@5fffffff", nil)
-		req.Header.Set("Authorization", scheme+tok.token)
 		out.Write(map[string]interface{}{"ev": "reset", "scn": scn.ID, "site": scn.Site, "toks": scn.Toks})
-		rec.take()
-		w := httptest.NewRecorder()
-		rp.Get(context.Background(), w, req, cluster, nil)
-		reqs := rec.take()
+		remote.take()
+		var reqs []vC19Captured
+		status := []int{}
+		for fetch := 0; fetch < 2; fetch++ { // the first fetch builds the client for the remote, the second reuses it
+			req := httptest.NewRequest("GET", "http://keep0.example/acbd18db4cc2f85cedef654fccc4a4d8+3+R"+vC19Remote+"-"+vC19Rand(rng, 40, "0123456789abcdef")+"@5fffffff", nil)
+			req.Header.Set("Authorization", scheme+tok.token)
+			w := httptest.NewRecorder()
+			rp.Get(context.Background(), w, req, cluster, nil)
+			status = append(status, w.Code)
+			reqs = append(reqs, remote.take()...)
+		}
+		apiSrv.CloseClientConnections()
 		if len(reqs) == 0 {
-			out.Write(map[string]interface{}{"ev": "refuse", "status": w.Code})
+			out.Write(map[string]interface{}{"ev": "refuse", "status": status})
 			continue
 		}
-		obs := vC19Observe(reqs, []vC19Concrete{tok})
-		out.Write(map[string]interface{}{"ev": "forward", "obs": obs, "nreq": len(reqs), "status": w.Code})
+		out.Write(map[string]interface{}{"ev": "forward", "obs": vC19Observe(reqs, []vC19Concrete{tok}), "nreq": len(reqs), "status": status})
+		// (the API server is left running: the keep client's service-list poller of this scenario
+		// may still talk to it; it carries whatever token the client was built with)
 	}
 	fmt.Println("VERIF-DRIVER-DONE scenarios:", len(scns))
-	_ = http.StatusOK
 }
